@@ -12,8 +12,10 @@ structure S where
   profP : PCfg := {}
   grpP : PCfg := { isClient := false }
   sw : Switches := { hasProfile := true, profOn := true, devOn := true }
-  mode : Mode := .nullIP
+  mode : Option Mode := some .nullIP
   ttl : Int := 10
+  now : Int := 0
+  zones : List (String × Zone) := []
   srvMode : Mode := .nullIP
   srvTtl : Nat := 10
   ups : List ((Host × QType) × Msg) := []
@@ -39,6 +41,7 @@ def parseRule (tok : String) : Option Rule :=
   | ["r6", d, v] => some (.rewrite (host! d) (.ip6 v))
   | ["rc", d, t] => some (.rewrite (host! d) (.cname (host! t)))
   | ["rr", d, n] => some (.rewrite (host! d) (.rcode (nat! n)))
+  | ["ro", d, t, v] => some (.rewrite (host! d) (.other (nat! t) v))
   | ["h4", d] => some (.hosts false (host! d))
   | ["h6", d] => some (.hosts true (host! d))
   | _ => none
@@ -82,7 +85,7 @@ def storageOf (s : S) : Storage :=
   { lists := s.lists.filterMap fun p => if isIdxName 'l' p.1 then some (idx p.1, p.2) else none
     svcs := s.lists.filterMap fun p => if isIdxName 's' p.1 then some (idx p.1, p.2) else none
     sb := s.sb, adult := s.ad, newReg := s.nr
-    genSS := lookupList s "g", ytSS := lookupList s "y" }
+    genSS := lookupList s "g", ytSS := lookupList s "y", now := s.now }
 
 def serverOf (s : S) : Server := { st := storageOf s, mode := s.srvMode, ttl := s.srvTtl, grp := s.grpP }
 
@@ -91,19 +94,44 @@ def profileOf (s : S) : Profile :=
 
 def whoOf (s : S) : Option Profile := if s.sw.hasProfile then some (profileOf s) else none
 
-/-- Distinct early-exit candidates among the matching rewrites of one list: more than one means the
-result depends on the engine's match order, which the model does not fix. -/
-def ambigRules (rs : List Rule) (host : Host) : Bool :=
-  let ts := (rewriteHits rs host).filter fun
+/-- Distinct early-exit candidates (CNAME / rcode rewrites) among the matching rewrites of one list.
+More than one means the result depends on the order in which the engine returns the matches, which
+urlfilter does not specify. -/
+def candidates (rs : List Rule) (host : Host) : List Rewrite :=
+  ((rewriteHits rs host).filter fun
     | .cname _ => true
     | .rcode _ => true
-    | _ => false
-  ts.eraseDups.length > 1
+    | _ => false).eraseDups
 
-def ambigCfg (c : Cfg) (host : Host) : Bool :=
-  c.rewriteSources.any (fun p => ambigRules p.2 host) ||
-  (match c.genSS with | some rs => ambigRules rs host | none => false) ||
-  (match c.ytSS with | some rs => ambigRules rs host | none => false)
+/-- The list as the engine may present it: one variant per candidate, with that candidate first (the
+model reads the matches in source order, so this makes it the deciding early exit). -/
+def listVariants (rs : List Rule) (host : Host) : List (List Rule) :=
+  let cs := candidates rs host
+  if cs.length > 1 then cs.map fun t => Rule.rewrite host t :: rs else [rs]
+
+def optVariants (o : Option (List Rule)) (host : Host) : List (Option (List Rule)) :=
+  match o with
+  | some rs => (listVariants rs host).map some
+  | none => [none]
+
+def listsVariants (host : Host) : List (Nat × List Rule) → List (List (Nat × List Rule))
+  | [] => [[]]
+  | (i, rs) :: rest =>
+    (listVariants rs host).flatMap fun v => (listsVariants host rest).map fun tl => (i, v) :: tl
+
+/-- Every configuration the engine's match order can make of `c` for this name. -/
+def cfgVariants (c : Cfg) (host : Host) : List Cfg :=
+  (optVariants c.custom host).flatMap fun cu =>
+  (listsVariants host c.lists).flatMap fun ls =>
+  (optVariants c.genSS host).flatMap fun g =>
+  (optVariants c.ytSS host).map fun y =>
+    { c with custom := cu, lists := ls, genSS := g, ytSS := y }
+
+/-- One answer, or all admissible ones when the match order matters. -/
+def showAlts (xs : List String) : String :=
+  match xs.eraseDups with
+  | [x] => x
+  | ys => "ambig " ++ " || ".intercalate ys
 
 def parseIPs (s : String) : List (Bool × String) :=
   (csv s).map fun v => (!(v.contains ':'), v)
@@ -115,6 +143,33 @@ def parseMode (m v4 v6 : String) : Mode :=
   | "ref" => .refused
   | _ => .customIP (parseIPs v4) (parseIPs v6)
 
+/-- `none` = a nil blocking mode. -/
+def parseModeOpt (m v4 v6 : String) : Option Mode :=
+  if m == "none" then none else some (parseMode m v4 v6)
+
+def semi (s : String) : List String := if s == "-" || s == "" then [] else s.splitOn ";"
+
+/-- `name;wd:start-stop;…` (weekday 0 = Sunday, minutes); `-` = no schedule. -/
+def parseSched (zones : List (String × Zone)) (tok : String) : Option Sched :=
+  match semi tok with
+  | [] => none
+  | zn :: ivs =>
+    let tbl : List (Nat × DayIv) := ivs.filterMap fun iv =>
+      match iv.splitOn ":" with
+      | [wd, r] =>
+        match r.splitOn "-" with
+        | [a, b] => some (nat! wd, { start := nat! a, stop := nat! b })
+        | _ => none
+      | _ => none
+    some { week := (List.range 7).map fun d => tbl.lookup d, zone := (zones.lookup zn).getD {} }
+
+/-- `start:stop:off,…` -/
+def parsePeriods (tok : String) : List Period :=
+  (csv tok).filterMap fun p =>
+    match p.splitOn ":" with
+    | [a, b, o] => some { start := int! a, stop := int! b, off := int! o }
+    | _ => none
+
 def isIPText (s : String) : Option (Bool × String) :=
   if s.contains ':' then some (false, s)
   else if s.all (fun ch => ch.isDigit || ch == '.') then some (true, s)
@@ -124,6 +179,8 @@ def parseRRs (name : Host) (s : String) : List RR :=
   (csv s).filterMap fun tok =>
     match tok.splitOn "/" with
     | [t, v, ttl] => some { name := name, typ := nat! t, val := v, ttl := nat! ttl, up := true }
+    | [t, v, ttl, hints] =>
+      some { name := name, typ := nat! t, val := v, ttl := nat! ttl, up := true, hints := (semi hints).map host! }
     | _ => none
 
 def parseAns (s : String) : List Ans :=
@@ -132,6 +189,7 @@ def parseAns (s : String) : List Ans :=
     | ["1", v] => .a (host! v)
     | ["28", v] => .aaaa (host! v)
     | ["5", v] => .cname (host! v)
+    | ["65", hints] => .https ((semi hints).map host!)
     | _ => .other
 
 def upstreamOf (s : S) (h : Host) (qt : QType) : Msg :=
@@ -157,12 +215,15 @@ def step (s : S) : List String → S × String
     let c : PCfg :=
       { isClient := bool! isClient, customOn := bool! custOn
         customRules := if custom == "-" then [] else lookupList s custom
-        parentalOn := bool! pOn, paused := bool! paused, adultOn := bool! ad, gssOn := bool! g, yssOn := bool! y
+        parentalOn := bool! pOn, pause := parseSched s.zones paused, adultOn := bool! ad, gssOn := bool! g, yssOn := bool! y
         svcIds := (csv svcs).map idx, ruleListOn := bool! rlOn, listIds := (csv lists).map idx
         sbOn := bool! sbOn, dangerousOn := bool! dang, nrdOn := bool! nr }
     (if w == "p" then { s with profP := c } else { s with grpP := c }, "ok")
   | ["sw", a, b, c] => ({ s with sw := { hasProfile := bool! a, profOn := bool! b, devOn := bool! c } }, "ok")
-  | ["mode", m, ttl, v4, v6] => ({ s with mode := parseMode m v4 v6, ttl := int! ttl }, "ok")
+  | ["mode", m, ttl, v4, v6] => ({ s with mode := parseModeOpt m v4 v6, ttl := int! ttl }, "ok")
+  | ["now", t] => ({ s with now := int! t }, "ok")
+  | ["zone", name, base, periods] =>
+    ({ s with zones := (name, { periods := parsePeriods periods, base := int! base }) :: s.zones.filter (·.1 != name) }, "ok")
   | ["srv", m, ttl, v4, v6] => ({ s with srvMode := parseMode m v4 v6, srvTtl := nat! ttl }, "ok")
   | ["up", h, qt, rc, rrs, ns] =>
     let k := (host! h, nat! qt)
@@ -170,17 +231,20 @@ def step (s : S) : List String → S × String
     ({ s with ups := (k, m) :: s.ups.filter (·.1 != k) }, "ok")
   | ["req", w, h, qt] =>
     let (c, m, t) := pick s w
-    (s, showV m t (host! h) (nat! qt) (filterRequest c (host! h) (nat! qt)) ++
-      (if ambigCfg c (host! h) then " ambig" else ""))
+    (s, showAlts ((cfgVariants c (host! h)).map fun c' => showV m t (host! h) (nat! qt) (filterRequest c' (host! h) (nat! qt))))
   | ["resp", w, answers] =>
     let (c, m, t) := pick s w
     (s, showV m t [] 0 (filterResponse c (parseAns answers)))
+  | ["sched", tok, t] =>
+    (s, match parseSched s.zones tok with
+        | some sc => showB (sc.contains (int! t))
+        | none => "none")
   | ["mw", h, qt] =>
     let e := envOf (serverOf s) (whoOf s) (upstreamOf s)
-    let amb := match selectFilter e.sw e.prof e.grp with
-      | some c => ambigCfg c (host! h)
-      | none => false
-    (s, showMsg (serveReq (serverOf s) (whoOf s) (upstreamOf s) (host! h) (nat! qt)) ++ (if amb then " ambig" else ""))
+    let envs : List Env :=
+      if e.sw.hasProfile then (cfgVariants e.prof (host! h)).map fun c' => { e with prof := c' }
+      else (cfgVariants e.grp (host! h)).map fun c' => { e with grp := c' }
+    (s, showAlts (envs.map fun e' => showMsg (serve e' (host! h) (nat! qt))))
   | _ => (s, "bad-op")
 
 def main : IO Unit := loop step {}
